@@ -29,6 +29,7 @@ THEOREMS = [
     "CKT.C14.assignMapIds_refuses_length",
     "CKT.C14.decompose_refuses_invalid",
     "CKT.C14.decompose_ok_shape",
+    "CKT.C14.validate_pairs_one_qubit",   # D13: a decomposition of two members consists of one-qubit placeholders
 ]
 RULE = ("circuits on 1-4 qubits with 0-4 placeholders (two-qubit, paired one-qubit halves sharing a basis object or an equal copy, "
         "standalone one-qubit) interleaved with ordinary gates; real gate bases and synthetic bases (empty sequences, markers, resets); "
@@ -36,7 +37,9 @@ RULE = ("circuits on 1-4 qubits with 0-4 placeholders (two-qubit, paired one-qub
         "mismatching bases, count mismatch, out-of-range / wrong number of map ids. deterministic families (seed independent, oracle on every case): "
         "one placeholder gate OBJECT appended at several positions (two-qubit, pairs of halves, standalone) with pairwise different map ids, not in "
         "place; pairs of halves whose two bases are nearly the same decomposition (same coefficients, sequences differing only by trailing "
-        "operations / in one operation / in one coefficient) next to equal, separately built bases. "
+        "operations / in one operation / in one coefficient) next to equal, separately built bases; every set partition of four halves of one basis "
+        "(and of three joint placeholders / a pair plus a lone half / a joint placeholder plus a pair) into groups, count and bases consistent: blocks "
+        "of three or four elements are refused, blocks of one or two are decomposed. "
         "non-trivial = at least one placeholder; distinct by payload")
 ASSUMPTIONS = ["QuantumCircuit.copy/append/data assignment and Instruction.definition are Qiskit's (modelled as list operations)",
                "a single running-offset step (overwrite + inserts / delete) is modelled as one take/++/drop splice"]
@@ -235,7 +238,51 @@ def _family_near_bases():
     yield _fixed(3, instrs, [short, longer, rzz], [[4, 5], [3, 0], [1]], [0, 1, 5], mode="near_basis")
 
 
+def _set_partitions(items):
+    if not items:
+        yield []
+        return
+    first, rest = items[0], items[1:]
+    for part in _set_partitions(rest):
+        for k in range(len(part)):
+            yield part[:k] + [[first] + part[k]] + part[k + 1:]
+        yield [[first]] + part
+
+
+def _family_group_shapes():
+    """EVERY way of grouping the placeholders of a circuit into decompositions, all placeholders holding one (shared or separately built,
+    equal) basis, every placeholder listed exactly once and one map id per group: the total count and the bases are consistent, so the only
+    thing that tells a grouping apart is the SIZE of its blocks.  Blocks of one or two elements are decompositions (one joint placeholder /
+    a lone half, a pair of halves); a block of three or four elements is no decomposition and the request has to be refused."""
+    cx = {"kind": "gate", "gate": "cx", "params": []}
+    four = [_g("h", 0), _p1(0, 0, 0), _g("cx", 0, 1), _p1(1, 0, 1), _p1(2, 0, 0), _g("s", 2), _p1(0, 0, 1), _g("t", 1)]
+    for n, part in enumerate(_set_partitions([1, 3, 4, 6])):
+        ids = [list(b) for b in part] if n % 2 == 0 else [list(reversed(b)) for b in reversed(part)]
+        yield _fixed(3, four, [_SYN2], ids, [(n + j) % 4 for j in range(len(ids))], mode="group_shape", inplace=(n % 3 == 0))
+    # the same with separately built, equal bases on the four halves
+    four_c = [_p1(0, 0, 0), _g("cx", 0, 1), _p1(1, 1, 1), _p1(2, 2, 0), _p1(0, 3, 1)]
+    bs = [_SYN2, {"kind": "copy", "of": 0}, {"kind": "copy", "of": 0}, {"kind": "copy", "of": 0}]
+    for ids, mids in (([[0], [2, 3, 4]], [1, 2]), ([[3, 0, 2], [4]], [0, 3]), ([[0, 2, 3, 4]], [1]), ([[0, 2], [3, 4]], [3, 1]), ([[4, 3, 2]], [0])):
+        yield _fixed(3, four_c, bs, ids, mids, mode="group_shape")
+    # three joint two-qubit placeholders of one basis (one gate cut three times) listed as ONE decomposition and one by one
+    three = [_p2([0, 1], 0), _g("h", 1), _p2([1, 2], 0), _g("cz", 0, 2), _p2([2, 0], 0)]
+    # a block of TWO that contains a joint two-qubit placeholder is no decomposition either (D13: the package used to let it through
+    # validation and then stopped on a bare assert, after an in-place call had already rewritten part of the circuit)
+    for ids, mids in (([[0, 2, 4]], [2]), ([[4, 0, 2]], [5]), ([[0], [2], [4]], [0, 4, 2]), ([[0, 2], [4]], [1, 3]), ([[4], [2, 0]], [0, 5])):
+        for inplace in (False, True):
+            yield _fixed(3, three, [cx], ids, mids, mode="group_shape", inplace=inplace)
+    # a pair of halves and a standalone half of the same basis in one block of three; a joint placeholder grouped with the halves of another cut
+    mixed = [_p1(0, 0, 0, lab="cut_0"), _g("x", 1), _p1(1, 0, 1, lab="cut_0"), _p1(1, 0, 0, lab="cut_1")]
+    for ids, mids in (([[0, 2, 3]], [1]), ([[3, 2, 0]], [0]), ([[0, 2], [3]], [2, 1])):
+        yield _fixed(2, mixed, [_SYN2], ids, mids, mode="group_shape", cregs=[["c", 1]])
+    joint = [_p2([0, 1], 0), _p1(1, 0, 0), _g("h", 0), _p1(0, 0, 1)]
+    for ids, mids in (([[0, 1, 3]], [4]), ([[1, 3, 0]], [0]), ([[0], [1, 3]], [5, 2]), ([[0, 1], [3]], [1, 2]), ([[1, 0], [3]], [1, 2]), ([[3, 0], [1]], [4, 0])):
+        for inplace in (False, True):
+            yield _fixed(2, joint, [cx], ids, mids, mode="group_shape", inplace=inplace)
+
+
 def cases(rng, tier):
+    yield from _family_group_shapes()
     yield from _family_shared_object()
     yield from _family_near_bases()
     yield from _family_map_forms()
@@ -338,7 +385,7 @@ def _materialise(payload):
     instrs = [dict(i) for i in payload["instrs"]]
     mode = payload["mode"]
     map_ids = [rng.randrange(len(bases[instrs[d[0]]["basis"]].maps)) for d in ids]
-    if payload.get("map_ids") is not None and mode in ("valid", "near_basis"):
+    if payload.get("map_ids") is not None and mode in ("valid", "near_basis", "group_shape"):
         map_ids = list(payload["map_ids"])      # the deterministic families name their map ids
     if payload.get("preset") is not None:
         # the placeholders already carry (other) map ids; an explicit map choice overrides them
@@ -522,6 +569,10 @@ def oracle(kind, payload):
         valid = False
     elif any(not instrs[g]["name"].startswith("qpd") for g in listed):
         valid = False
+    elif any(len(d) == 2 and any(instrs[g]["name"] == "qpd_2q" for g in d) for d in ids):
+        # a joint two-qubit placeholder is a decomposition of its own: it cannot be paired with anything (D13)
+        valid = False
+        mode = mode + ": a decomposition of two members contains a joint two-qubit placeholder"
     elif any(bases[instrs[d[0]]["basis"]] != bases[instrs[g]["basis"]] for d in ids for g in d):
         valid = False
     elif any(_basis_signature(bases[instrs[d[0]]["basis"]]) != _basis_signature(bases[instrs[g]["basis"]]) for d in ids for g in d):
